@@ -283,6 +283,21 @@ def c05_obligations():
                GRIDDER_IMPORTS)
 
 
+SCORE_FUNCS = ["check_data", "score_estimator", (_BASE_CLASSES, "BaseGridder.score")]
+SCORE_THEOREMS = ["src_BaseGridder_score_eq", "src_score_estimator_eq"]
+SCORE_TEMPLATES = ["pylite_score.v.tmpl"]
+SCORE_IMPORTS = "From Verde Require Model.Scoring.\nFrom Verde Require Import Proofs.PyLiteBridge."
+
+
+def score_obligations():
+    """verde/base/utils.py score_estimator and BaseGridder.score against Model/Scoring.v score_tuple (property C12)"""
+    return tie("ScoreSrc", _BASE_UTILS, SCORE_FUNCS, SCORE_TEMPLATES, SCORE_THEOREMS, SCORE_IMPORTS)
+
+
+def c12_obligations():
+    return score_obligations()
+
+
 SURFER_FUNCS = ["_read_surfer_header", "_check_surfer_integrity"]
 SURFER_THEOREMS = ["src_read_surfer_header_eq", "src_check_surfer_integrity_eq"]
 SURFER_IMPORTS = ("From Verde Require Import Lib.Dyadic Model.Surfer Proofs.SurferProofs Proofs.PyLiteBridge "
